@@ -134,6 +134,13 @@ LNEW = """        let secrets = |set: &[(u64, AssetBlindingFactor, ValueBlinding
 for P in ("C09", "C04"):
     eq(P, "src/confidential.rs", LOLD, LNEW, "one local closure builds both sets")
 
+eq("C14", "src/pset/macros.rs", """        if let (&None, Some($thing)) = (&$slf.$thing, $other.$thing) {
+            $slf.$thing = Some($thing);
+        }""", """        match ($slf.$thing.take(), $other.$thing) {
+            (None, theirs) => $slf.$thing = theirs,
+            (ours, _) => $slf.$thing = ours,
+        }""", "take() and restore on every arm")
+
 only = sys.argv[1] if len(sys.argv) > 1 else None
 bad = 0
 for prop, path, old, new, why in R:
